@@ -482,7 +482,7 @@ func PCheckBlocksOfStorage(pctx context.Context) (context.Context, error) {
 	}
 
 	if err := isaacblock.IsValidLastBlocks(readers, fromRemotes, db, isaacparams.NetworkID()); err != nil {
-		var derr isaacblock.ErrValidatedDifferentHeightBlockMaps
+		var derr *isaacblock.ErrValidatedDifferentHeightBlockMaps
 		if errors.As(err, &derr) {
 			l := log.Log().With().Err(err).
 				Interface("database_height", derr.DatabaseHeight()).
